@@ -1,7 +1,10 @@
 from mpilot.commands import Command
 
 
-class Foo(Command):
+class FooFromAB(Command):
+    # the COMMAND name is what counts for lookup and duplicate detection, not the Python class name
+    name = "Foo"
+
     def execute(self, **kw):
         return "vlib_ab.Foo"
 
